@@ -17,7 +17,7 @@ PROPS = {
     },
     "C06": {
         "harnesses": [
-            {"pkg": "interpreter", "name": "VH_C06_CheckSig", "quick": {"params": {"S": 1, "ERA": 0, "HT": 1}}, "thorough": {"params": {"S": 2, "ERA": 1, "HT": 2}}},
+            {"pkg": "interpreter", "name": "VH_C06_CheckSig", "quick": {"params": {"S": 1, "ERA": 0, "HT": 2}}, "thorough": {"params": {"S": 2, "ERA": 1, "HT": 2}}},
             {"pkg": "interpreter", "name": "VH_C06_Encoding", "quick": {"params": {"S": 0, "ERA": 0, "TRAIL": 0, "SLN": 2}}, "thorough": {"params": {"S": 0, "ERA": 0, "TRAIL": 0, "SLN": 6}}},
             {"pkg": "interpreter", "name": "VH_C06_MultiSig", "quick": {"params": {"S": 0, "N": 2, "ERA": 0, "HT": 0}}, "thorough": {"params": {"S": 1, "N": 3, "ERA": 1, "HT": 1}}},
         ],
@@ -104,9 +104,10 @@ PROPS = {
     },
     "C13": {
         "harnesses": [
-            {"pkg": "bscript", "name": "VH_C13_Parts", "quick": {"params": {"P": 2, "BIG": 0}}, "thorough": {"params": {"P": 3, "BIG": 1}}},
+            {"pkg": "bscript", "name": "VH_C13_Parts", "quick": {"params": {"P": 2, "BIG": 1}}, "thorough": {"params": {"P": 3, "BIG": 1}}},
             {"pkg": "bscript", "name": "VH_C13_DecodeParts", "quick": {"params": {"L": 4}}, "thorough": {"params": {"L": 7}}},
             {"pkg": "bscript", "name": "VH_C13_HexJSON", "quick": {"params": {"L": 3}}, "thorough": {"params": {"L": 6}}},
+            {"pkg": "bscript", "name": "VH_C13_ASM", "quick": {"params": {"E": 2, "PL": 3}}, "thorough": {"params": {"E": 3, "PL": 5}}},
             {"pkg": "interpreter", "name": "VH_C13_ParseUnparse", "quick": {"params": {"L": 2}}, "thorough": {"params": {"L": 3}}},
             {"pkg": "interpreter", "name": "VH_C13_ParseReturn", "quick": {"params": {"T": 4}}, "thorough": {"params": {"T": 8}}},
         ],
